@@ -291,6 +291,13 @@ static void do_A(char *line)
             e->rfc = (EAV_RFC)m1;
             g_stage = "eav_setup#1";
             if (eav_setup(e) != 0) { eav_free(e); free(e); continue; }
+            {   /* a second, long-lived object is set up for m2 in between (set-up state must be per object, not per thread / process) */
+                static eav_t *other = NULL;
+                if (!other) { other = malloc(sizeof *other); eav_init(other); }
+                other->rfc = (EAV_RFC)m2;
+                g_stage = "eav_setup(other object)";
+                (void)eav_setup(other);
+            }
             e->rfc = (EAV_RFC)m2;
             g_stage = "eav_setup#2";
             if (eav_setup(e) != 0) { eav_free(e); free(e); continue; }
@@ -417,6 +424,38 @@ static void do_G(char *line)
     }
     printf("}\n");
     free(buf); free(u); free(t); free(sfx); free(pfx);
+}
+
+/* R <count> <hex> : one object per mode m: set up, then rfc is set to another value that is never confirmed, then the address is validated
+ * <count> times: every outcome must equal the first (a call counter that wraps and re-reads the settings, growth, drift).
+ * Output {"m":[mismatches, index of the first one, first ret, first errcode, deviating ret, deviating errcode]} */
+static void do_R(char *line)
+{
+    long count = 0; int off = 0, m;
+    size_t n; char *s;
+    if (sscanf(line, "R %ld %n", &count, &off) < 1) { printf("{\"err\":\"parse\"}\n"); return; }
+    s = hexdup_in(line + off, &n);
+    putchar('{');
+    for (m = 0; m < 4; m++) {
+        eav_t *e = fresh_eav(0x6B);
+        long i, bad = 0, first_bad = -1; int r0 = 0, e0 = 0, rb = 0, eb = 0;
+        eav_init(e);
+        e->rfc = (EAV_RFC)m;
+        e->tld_check = (m & 1) ? true : false;
+        g_stage = "eav_setup";
+        if (eav_setup(e) != 0) { eav_free(e); free(e); printf("%s\"%d\":null", m ? "," : "", m); continue; }
+        e->rfc = (EAV_RFC)((m + 1) % 4);
+        g_stage = "eav_is_email-repeated";
+        for (i = 0; i < count; i++) {
+            int ret = eav_is_email(e, s, n);
+            if (i == 0) { r0 = ret; e0 = e->errcode; }
+            else if (ret != r0 || e->errcode != e0) { if (!bad) { first_bad = i; rb = ret; eb = e->errcode; } bad++; }
+        }
+        printf("%s\"%d\":[%ld,%ld,%d,%d,%d,%d]", m ? "," : "", m, bad, first_bad, r0, e0, rb, eb);
+        eav_free(e); free(e);
+    }
+    printf("}\n");
+    hexfree(s);
 }
 
 static void do_D(char *line)
@@ -669,6 +708,7 @@ int main(void)
 #ifndef HAVE_IDNKIT
         case 'L': do_L(line); break;
         case 'G': do_G(line); break;
+        case 'R': do_R(line); break;
         case 'K': do_K(line); break;
         case 'X': do_X(line); break;
         case 'D': do_D(line); break;
